@@ -49,6 +49,11 @@ def check(chk, repo):
     from ..rules_ift import check_prim
     _, comps = competitions_of(repo, "SupervisedOPF", "fit", 2)
     check_prim(rep, "PROTO:", comps[0])
+    # a prediction must be a function of the forest and of the query alone: the running minimum and its label start
+    # afresh, from the first sample of the order, for every query (otherwise a query conquered by idx_nodes[0] - which of
+    # the zero-cost prototypes that is depends on storage order - inherits what the previous query left behind)
+    from .c03 import check_scan
+    check_scan(chk, rep, repo, "PREDICT:", only={"SCAN-init", "SCAN-label", "SCAN-label-stray", "SCAN-candidate"})
     # every forest is grown through the priority queue: its structural rules are a premise here too
     from ..rules_heap import check_heap
     check_heap(rep, repo, "HEAP-")
